@@ -414,3 +414,111 @@ func init() {
 		return obs, fine
 	}
 }
+
+// ---------- a connection that ends INSIDE a frame, then the same transport object reopened (C05, C06) ----------
+
+// runReopenCase: connection 1 delivers the first `cut` bytes of a well-formed response frame (0 = nothing,
+// 1..3 = inside the size prefix, >= 4 = prefix consumed, body incomplete) and hangs up; the transport closes
+// itself; the SAME transport object is opened again on a fresh connection; a request on connection 2 gets its
+// response (possibly preceded by `pre` other complete frames). Whatever was left over from connection 1 must
+// not be taken for the start of connection 2.
+func runReopenCase(cut, pre, timeoutMs int) (string, bool, string) {
+	sp := &stallingPeer{scriptedPeer: newScriptedPeer(), inOpen: make(chan struct{}, 1), inClose: make(chan struct{}, 1)}
+	tr := frugal.NewAdapterTransport(sp)
+	if err := tr.Open(); err != nil {
+		return "open-failed", false, err.Error()
+	}
+	closed := tr.Closed()
+	body := respFrame(1<<60+9, 3)
+	fr := append(be32(uint32(len(body))), body...)
+	if cut > len(fr)-1 {
+		cut = len(fr) - 1
+	}
+	if cut > 0 {
+		sp.scriptedPeer.inbound <- fr[:cut]
+		time.Sleep(2 * time.Millisecond)
+	}
+	sp.scriptedPeer.Close() // the peer hangs up: EOF for the read loop
+	select {
+	case <-closed:
+	case <-time.After(2 * time.Second):
+		tr.Close()
+		return "outcome=notClosed", false, "the transport did not close itself after the peer hung up"
+	}
+	sp.scriptedPeer = newScriptedPeer() // connection 2
+	if err := tr.Open(); err != nil {
+		return "outcome=reopenFailed:" + errClass(err), false, "reopen of the same transport failed: " + err.Error()
+	}
+	defer tr.Close()
+	timeout := time.Duration(timeoutMs) * time.Millisecond
+	ctx := frugal.NewFContext("")
+	ctx.SetTimeout(timeout)
+	opid, _ := frugal.VerifGetOpID(ctx)
+	type res struct {
+		tr  thrift.TTransport
+		err error
+	}
+	done := make(chan res, 1)
+	go func() {
+		t, err := tr.Request(ctx, []byte{0, 0, 0, 1, 0})
+		done <- res{t, err}
+	}()
+	time.Sleep(3 * time.Millisecond)
+	for i := 0; i < pre; i++ {
+		sp.scriptedPeer.inject(1<<61+uint64(i), 1)
+	}
+	sp.scriptedPeer.inject(opid, 7)
+	var r res
+	select {
+	case r = <-done:
+	case <-time.After(timeout*3 + 2*time.Second):
+		return "outcome=hung", false, "Request on the reopened transport did not return"
+	}
+	outcome := ""
+	if r.err == nil && r.tr != nil {
+		buf := make([]byte, 4096)
+		n, _ := r.tr.Read(buf)
+		if id, tag, ok := frameIdent(buf[:n]); ok && id == opid {
+			outcome = "ok:" + strconv.Itoa(tag)
+		} else {
+			outcome = "ok:foreign"
+		}
+	} else if te, ok := r.err.(thrift.TTransportException); ok && te.TypeId() == frugal.TRANSPORT_EXCEPTION_TIMED_OUT {
+		outcome = "timedOut"
+	} else {
+		outcome = "err:" + errClass(r.err)
+	}
+	why := ""
+	if outcome != "ok:7" {
+		why = fmt.Sprintf("after connection 1 ended %d bytes into a frame and the SAME transport was reopened, the well-formed response on connection 2 was not delivered (%s): what was left over from the old connection was taken for the start of the new one", cut, outcome)
+	}
+	return "outcome=" + outcome, why == "", why
+}
+
+func init() {
+	suites["c06reopen"] = func(r *Rng, n int) {
+		for i := 0; i < n; i++ {
+			cut := r.Pick(0, 1, 2, 3, 4, 5, 6, 9, 13, 20, 1000)
+			pre := r.Intn(3)
+			to := 60 + r.Intn(100)
+			obs, fine, why := retryTiming(func() (string, bool, string) { return runReopenCase(cut, pre, to) })
+			line := fmt.Sprintf("rqo %d %d %d", cut, pre, to)
+			Case(line, obs)
+			Stat(fmt.Sprintf("cut=%d", cut))
+			if !fine {
+				OracleFail(why, map[string]interface{}{"op": "rqo", "line": line, "got": obs})
+			}
+			Stat("evaluations")
+		}
+	}
+	lineOps["rqo"] = func(a []string) (string, bool) {
+		if len(a) != 3 {
+			return "bad-op", true
+		}
+		cut, _ := strconv.Atoi(a[0])
+		pre, _ := strconv.Atoi(a[1])
+		to, _ := strconv.Atoi(a[2])
+		obs, fine, _ := runReopenCase(cut, pre, to)
+		return obs, fine
+	}
+}
